@@ -64,4 +64,3 @@ func main() {
 	os.Exit(parentMain(def, tier))
 }
 
-func raceChildMain(args []string) int { return 2 }
